@@ -9,6 +9,7 @@ import WrapModel.Model.Runtime.Mx
 import WrapModel.Model.Runtime.Gateway
 import WrapModel.Model.XmlDriver
 import WrapModel.Spec.Subst
+import WrapModel.Spec.C02Guard
 import WrapModel.Spec.Lexemes
 
 namespace WrapModel.Driver
@@ -95,6 +96,14 @@ def handle (fields : List String) : String :=
         match Spec.specInstModule m with
         | .ok im => okLine (IDump.cppModule im)
         | .error e => errLine e
+  | ["c02guard", h] =>
+    -- how many type-level instantiation calls of this module are inside the proved agreement region (Props/C02.lean)
+    match Hex.decode h with
+    | none => "bad\thex"
+    | some text =>
+      match Parse.parseModule text with
+      | .error e => errLine e
+      | .ok m => okLine (Spec.guardLine m)
   | ["lexrt", h] =>
     -- the canonical lexemes of the parsed tree (C01: `Spec.lexemes`), and whether reading them back gives the tree
     match Hex.decode h with
